@@ -220,7 +220,7 @@ GROUPS += [
                         "honoured by dispatch (c11_*) and by parse (c02_v*_extract_*)"],
     },
     {
-        "id": "C02.extract.v4", "property": "C02", "crate": "core", "stubbing": True, "cbmc_args": FS1100,
+        "id": "C02.extract.v4", "property": ["C02", "C01"], "crate": "core", "stubbing": True, "cbmc_args": FS1100,
         "harnesses": ["c02_v4_extract", "c02_v4_recv_tcp_socket", "c02_channel_tcp_attempts_expire"], "jobs": 4, "timeout_s": 900, "mem_gb": 12,
         "functions": ["net::ipv4::Ipv4::{extract_probe_proto_resp,calc_udp_checksum,recv_tcp_socket}", "net::channel::Channel::recv_tcp_sockets (expiry)",
                       "net::ipv4::{extract_echo_request,extract_udp_packet,extract_tcp_packet}"],
@@ -229,7 +229,7 @@ GROUPS += [
                   "outcome (connected / refused / host unreachable / other) with symbolic ports, peer and error addresses",
     },
     {
-        "id": "C02.extract.v6", "property": "C02", "crate": "core", "stubbing": True, "cbmc_args": FS1100,
+        "id": "C02.extract.v6", "property": ["C02", "C01"], "crate": "core", "stubbing": True, "cbmc_args": FS1100,
         "harnesses": ["c02_v6_extract"], "jobs": 3, "timeout_s": 900, "mem_gb": 12,
         "functions": ["net::ipv6::Ipv6::extract_probe_proto_resp", "net::ipv6::{extract_echo_request,extract_udp_packet,"
                       "extract_tcp_packet,udp_payload_has_magic_prefix}"],
@@ -253,7 +253,7 @@ GROUPS += [
     },
     # ------------------------------------------------------------------ C11 / C13 / C19 dispatch
     {
-        "id": "C11.dispatch.v4", "property": ["C11", "C19", "C09"], "crate": "core", "stubbing": True, "cbmc_args": FS1100,
+        "id": "C11.dispatch.v4", "property": ["C11", "C19", "C09", "C02"], "crate": "core", "stubbing": True, "cbmc_args": FS1100,
         "harnesses": ["c11_v4_", "c09_v4_", "c19_v4_"], "jobs": 5, "timeout_s": 1500, "mem_gb": 12,
         "functions": ["net::ipv4::Ipv4::{dispatch_icmp_probe,dispatch_udp_probe,dispatch_udp_probe_raw,dispatch_tcp_probe,"
                       "make_echo_request_icmp_packet,make_udp_packet,make_ipv4_packet,calc_udp_checksum,recv_icmp_probe}",
@@ -264,7 +264,7 @@ GROUPS += [
                   "(socket options); network byte order",
     },
     {
-        "id": "C11.dispatch.v6", "property": "C11", "crate": "core", "stubbing": True, "cbmc_args": FS1100,
+        "id": "C11.dispatch.v6", "property": ["C11", "C02"], "crate": "core", "stubbing": True, "cbmc_args": FS1100,
         "harnesses": ["c11_v6_dispatch_icmp", "c11_v6_dispatch_udp_min", "c11_v6_dispatch_udp_57", "c11_v6_size_guards",
                       "c11_v6_dispatch_tcp", "c11_v6_dispatch_udp_unprivileged"], "jobs": 5, "timeout_s": 1500, "mem_gb": 12,
         "functions": ["net::ipv6::Ipv6::{dispatch_icmp_probe,dispatch_udp_probe,dispatch_udp_probe_raw,dispatch_tcp_probe,"
@@ -283,7 +283,7 @@ GROUPS += [
                   "initial sequence symbolic",
     },
     {
-        "id": "C13.paris", "property": ["C13", "C11"], "crate": "core", "stubbing": True, "cbmc_args": FS1100,
+        "id": "C13.paris", "property": ["C13", "C11", "C02"], "crate": "core", "stubbing": True, "cbmc_args": FS1100,
         "harnesses": ["c13_v4_dispatch_udp_paris", "c13_v6_dispatch_udp_paris"], "jobs": 2, "timeout_s": 1500, "mem_gb": 12,
         "functions": ["Ipv4/Ipv6::dispatch_udp_probe_raw (Paris swap)", "checksum::{udp_ipv4_checksum,udp_ipv6_checksum}"],
         "stubs": [SOCK_STUB],
@@ -310,16 +310,33 @@ GROUPS += [
     },
     {
         "id": "C16.accepted", "property": "C16", "crate": "core", "stubbing": True,
-        "harnesses": ["c16_probe_data", "c16_accepted_config", "c16_builder_rejects", "c16_tcp_probe_table", "c16_advance_round"], "jobs": 6,
+        "harnesses": ["c16_probe_data", "c16_accepted_config", "c16_tcp_probe_table"], "jobs": 6,
         "timeout_s": 900, "mem_gb": 12,
-        "functions": ["builder::Builder::build (rejecting half)", "TracerState::probe_data", "Strategy::{send_request,"
-                      "publish_trace}", "TracerState::advance_round", "net::channel::Channel::{send_probe,dispatch_tcp_probe}"],
+        "functions": ["TracerState::probe_data", "Strategy::{send_request,publish_trace}", "TracerState::advance_round",
+                      "net::channel::Channel::{send_probe,dispatch_tcp_probe}"],
         "stubs": [CLOCK_STUB, NET_STUB, SOCK_STUB, "alloc::fmt::format -> empty String (error messages)"],
-        "bounds": "every builder parameter combination (protocol, strategy, port direction, first/max ttl, initial sequence); "
-                  "first round from the initial state at initial sequences {0, 33434, 64511}; TCP table 0..=256 entries; "
-                  "round-to-round step from every INV state (any number of rounds, by induction with C07.sym / C07.dublin6)",
+        "bounds": "every builder-accepted parameter combination (protocol, strategy, port direction, first/max ttl, initial "
+                  "sequence); first round from the initial state at initial sequences {0, 33434, 64511}; TCP table 0..=256 entries",
+    },
+    {
+        # the builder's validation is also the base of C07 (initial_sequence <= MAX_INITIAL_SEQUENCE is an INV conjunct)
+        "id": "C16.builder", "property": ["C16", "C07"], "crate": "core", "stubbing": True,
+        "harnesses": ["c16_builder_rejects"], "jobs": 2, "timeout_s": 600, "mem_gb": 12,
+        "functions": ["builder::Builder::build (rejecting half)"],
+        "stubs": ["alloc::fmt::format -> empty String (error messages)", "state::State::new / RandomState::new cut (accepting path)"],
+        "bounds": "every builder parameter combination (protocol, strategy, port direction, first/max ttl, initial sequence, "
+                  "trace identifier ...) in one query",
         "assumptions": ["Builder::build's accepting path (Tracer::new -> State::new) is not executed; make_strategy_config "
                         "is a field-by-field copy (read)"],
+    },
+    {
+        # the round-to-round step without the C07 / C03 separation claim: what C16 (no panic in ANY round), C06 (every round
+        # restarts at first-ttl with the target / progress bookkeeping cleared) and C09 (rounds numbered in order) need
+        "id": "C16.round_step", "property": ["C16", "C06", "C09"], "crate": "core", "stubbing": True,
+        "harnesses": ["c16_advance_round"], "jobs": 2, "timeout_s": 300, "mem_gb": 8,
+        "functions": ["TracerState::{advance_round,max_sequence,in_round,probes}"], "stubs": [CLOCK_STUB],
+        "bounds": "every accepted configuration, both maximum-sequence regimes, all initial sequences 0..=64511, all round sizes "
+                  "0..=512 in one query (one inductive step; with C07.sym / C07.dublin6 this covers any number of rounds); " + INV_TXT,
     },
     {
         "id": "C19.nat", "property": "C19", "crate": "core", "harnesses": ["c19_nat"], "jobs": 2, "timeout_s": 300, "mem_gb": 8,
